@@ -156,6 +156,23 @@ func c15P1(c *Ctx, fn *FuncInfo, counts map[string]int) {
 	if len(idxVars) == 0 {
 		return
 	}
+	// variables that receive a copy of such a result carry the same −1
+	for round := 0; round < 2; round++ {
+		ast.Inspect(fn.Decl.Body, func(nd ast.Node) bool {
+			as, ok := nd.(*ast.AssignStmt)
+			if !ok || len(as.Lhs) != len(as.Rhs) {
+				return true
+			}
+			for i, r := range as.Rhs {
+				if src := identObj(info, r); src != nil && idxVars[src] {
+					if dst := identObj(info, as.Lhs[i]); dst != nil {
+						idxVars[dst] = true
+					}
+				}
+			}
+			return true
+		})
+	}
 	uses := func(x ast.Expr) types.Object {
 		var found types.Object
 		if x == nil {
